@@ -42,6 +42,20 @@ def refSegwitDecode (addr : List Nat) : String :=
   | some (h, (v, p)) => s!"ref ok {v} {textHex p} {textHex h}"
   | none => "ref none"
 
+/-- secp256k1's field prime and order (as in the `wif.dec` op), and "x is an x-coordinate": x < p and x³+7 is a
+    square (Euler's criterion) — what `_is_x_coordinate_var` / libsecp256k1's x-only parse answer. -/
+def secpP : Nat := 2 ^ 256 - 2 ^ 32 - 977
+def secpN : Nat := 0xFFFFFFFFFFFFFFFFFFFFFFFFFFFFFFFEBAAEDCE6AF48A03BBFD25E8CD0364141
+
+def powMod (m : Nat) : Nat → Nat → Nat → Nat → Nat
+  | 0, _, _, acc => acc
+  | fuel + 1, b, e, acc =>
+    if e = 0 then acc else powMod m fuel (b * b % m) (e / 2) (if e % 2 = 1 then acc * b % m else acc)
+
+def secpIsX (x : Nat) : Bool :=
+  decide (x < secpP) && (let y2 := (x * x % secpP * x + 7) % secpP
+                         y2 == 0 || powMod secpP 260 y2 ((secpP - 1) / 2) 1 == 1)
+
 def handle : List String → String
   | "gen" :: "Bech32" :: fn :: args => (Gen.Bech32.dispatch fn args).getD "bad-op"
   | "gen" :: "Base58" :: fn :: args => (Gen.Base58.dispatch fn args).getD "bad-op"
@@ -180,6 +194,13 @@ def handle : List String → String
     match text? txt with
     | some t =>
       match KeyText.xkeyDecode hash256 t with
+      | .ok k => s!"ok {toHex k.version} {k.depth} {toHex k.parentFp} {k.index} {toHex k.chainCode} {toHex k.key}"
+      | .error _ => "err value"
+    | none => "bad-op"
+  | ["xkey.decv", txt] =>
+    match text? txt with
+    | some t =>
+      match KeyText.xkeyDecodeChecked hash256 secpN secpIsX t with
       | .ok k => s!"ok {toHex k.version} {k.depth} {toHex k.parentFp} {k.index} {toHex k.chainCode} {toHex k.key}"
       | .error _ => "err value"
     | none => "bad-op"
